@@ -286,12 +286,116 @@ class Prog:
             return "(%s %s %s)" % (self.iexpr(d + 1), r.choice(["<", ">", "=="]), self.iexpr(d + 1))
         return "(%s && %s)" % (self.bexpr(d + 1), self.bexpr(d + 1)) if d < 2 else "(%s < %s)" % (self.fexpr(d + 1), self.fexpr(d + 1))
 
+    def promotable(self, ind, seed_expr=None):
+        """a scalar local (u32 / i32 / f32 / bool) that is initialised, overwritten and read back in the same block:
+        what mem2reg / DCE rewrite in place"""
+        r = self.r
+        kind = r.below(4)
+        v = self.name("t")
+        rd = self.name("f")
+        if kind == 0:
+            out = ["%svar %s: u32 = %s;" % (ind, v, seed_expr or self.uexpr()), "%s%s = %s %s %s;" % (ind, v, v, r.choice(["+", "*", "^"]), self.uexpr(2)),
+                   "%slet %s = f32(%s);" % (ind, rd, v)]
+            self.u.append(v)
+        elif kind == 1:
+            out = ["%svar %s: i32 = %s;" % (ind, v, ("i32(%s)" % seed_expr) if seed_expr else self.iexpr()), "%s%s = %s %s %s;" % (ind, v, v, r.choice(["+", "-", "*"]), self.iexpr(2)),
+                   "%slet %s = f32(%s);" % (ind, rd, v)]
+            self.i.append(v)
+        elif kind == 2:
+            out = ["%svar %s: f32 = %s;" % (ind, v, ("f32(%s)" % seed_expr) if seed_expr else self.fexpr()), "%s%s %s %s;" % (ind, v, r.choice(["=", "+=", "*="]), self.fexpr(2)),
+                   "%slet %s = %s * 2.0;" % (ind, rd, v)]
+            self.mut_f.append(v)
+        else:
+            out = ["%svar %s: bool = %s;" % (ind, v, self.bexpr(2)), "%s%s = !%s;" % (ind, v, v), "%slet %s = select(1.0, 2.0, %s);" % (ind, rd, v)]
+        self.f.append(rd)
+        return out
+
+    def nested(self, depth, ind, sink):
+        """one nested compound statement (for / while / loop+continuing / if-else / switch / bare block) whose body declares a
+        promotable local, writes it, reads it and feeds the sink"""
+        r = self.r
+        k = r.below(6)
+        saved = (list(self.f), list(self.u), list(self.i), list(self.v), list(self.mut_f))
+        inner = ind + "  "
+        out = []
+        if k == 0:
+            lv = self.name("k")
+            out.append("%sfor (var %s = 0u; %s < %du; %s = %s + 1u) {" % (ind, lv, lv, 2 + r.below(4), lv, lv))
+            self.u.append(lv)
+            out += self.promotable(inner, lv) + self.block(r.below(3), depth + 1, inner, sink) + ["%s%s" % (inner, sink(self))]
+            out.append("%s}" % ind)
+        elif k == 1:
+            lv = self.name("w")
+            out.append("%svar %s = 0u;" % (ind, lv))
+            out.append("%swhile (%s < %du) {" % (ind, lv, 2 + r.below(3)))
+            self.u.append(lv)
+            out += self.promotable(inner, lv) + ["%s%s" % (inner, sink(self)), "%s%s = %s + 1u;" % (inner, lv, lv)]
+            out.append("%s}" % ind)
+        elif k == 2:
+            lv = self.name("l")
+            out.append("%svar %s = 0u;" % (ind, lv))
+            out.append("%sloop {" % ind)
+            self.u.append(lv)
+            out += self.promotable(inner, lv) + self.block(r.below(2), depth + 1, inner, sink) + ["%s%s" % (inner, sink(self))]
+            out.append("%scontinuing {" % inner)
+            out.append("%s  %s = %s + 1u;" % (inner, lv, lv))
+            out.append("%s  break if %s >= %du;" % (inner, lv, 2 + r.below(3)))
+            out.append("%s}" % inner)
+            out.append("%s}" % ind)
+        elif k == 3:
+            out.append("%sif %s {" % (ind, self.bexpr()))
+            out += self.promotable(inner) + ["%s%s" % (inner, sink(self))]
+            out.append("%s} else {" % ind)
+            self.f, self.u, self.i, self.v, self.mut_f = [list(x) for x in saved]
+            out += self.promotable(inner) + self.block(r.below(2), depth + 1, inner, sink) + ["%s%s" % (inner, sink(self))]
+            out.append("%s}" % ind)
+        elif k == 4:
+            out += self.switch_stmt(depth, ind, sink, force_local=True)
+        else:
+            out.append("%s{" % ind)
+            out += self.promotable(inner) + self.block(r.below(3), depth + 1, inner, sink) + ["%s%s" % (inner, sink(self))]
+            out.append("%s}" % ind)
+        self.f, self.u, self.i, self.v, self.mut_f = saved
+        return out
+
+    def switch_stmt(self, depth, ind, sink, force_local=False):
+        r = self.r
+        saved = (list(self.f), list(self.u), list(self.i), list(self.v), list(self.mut_f))
+        inner = ind + "  "
+        out = ["%sswitch (%s) {" % (ind, self.uexpr(1))]
+        vals = r.shuffle(list(range(8)))
+        ncase = r.below(3)
+        pos = 0
+        for _ in range(ncase):
+            take = 1 + r.below(2)
+            out.append("%scase %s: {" % (inner, ", ".join("%du" % v for v in vals[pos:pos + take])))
+            pos += take
+            self.f, self.u, self.i, self.v, self.mut_f = [list(x) for x in saved]
+            if force_local or r.chance(1, 2):
+                out += self.promotable(inner + "  ")
+            out += self.block(1 + r.below(2), depth + 1, inner + "  ", sink)
+            out.append("%s}" % inner)
+        out.append("%sdefault: {" % inner)
+        self.f, self.u, self.i, self.v, self.mut_f = [list(x) for x in saved]
+        if force_local or r.chance(2, 3):
+            # the default arm holds nested control flow of its own
+            if depth < 2 and r.chance(1, 2):
+                out += self.nested(depth + 1, inner + "  ", sink)
+            else:
+                out += self.promotable(inner + "  ") + ["%s  %s" % (inner, sink(self))]
+        else:
+            out += self.block(1 + r.below(2), depth + 1, inner + "  ", sink)
+        out.append("%s}" % inner)
+        out.append("%s}" % ind)
+        self.f, self.u, self.i, self.v, self.mut_f = saved
+        return out
+
     def block(self, n, depth, ind, sink):
         r = self.r
         out = []
         saved = (list(self.f), list(self.u), list(self.i), list(self.v), list(self.mut_f))
         for _ in range(n):
-            k = r.below(12)
+            k = r.below(16)
             if k < 3:
                 v = self.name("f")
                 out.append("%slet %s = %s;" % (ind, v, self.fexpr()))
@@ -329,6 +433,19 @@ class Prog:
                 out += self.block(1 + r.below(4), depth + 1, ind + "  ", sink)
                 self.u.remove(lv)
                 out.append("%s}" % ind)
+            elif k == 12:
+                out += self.promotable(ind)
+            elif k == 13 and depth < 3:
+                out += self.switch_stmt(depth, ind, sink)
+            elif k == 14 and depth < 3:
+                # an else branch that holds nested control flow with promotable locals written and read inside it
+                out.append("%sif %s {" % (ind, self.bexpr()))
+                out += self.block(1 + r.below(2), depth + 1, ind + "  ", sink)
+                out.append("%s} else {" % ind)
+                out += self.nested(depth + 1, ind + "  ", sink)
+                out.append("%s}" % ind)
+            elif k == 15 and depth < 3:
+                out += self.nested(depth, ind, sink)
             else:
                 out.append("%s%s" % (ind, sink(self)))
         self.f, self.u, self.i, self.v, keep_mut = saved
@@ -389,3 +506,277 @@ def wgsl_program(r, size):
         src.append("@fragment\nfn main(@builtin(position) fc: vec4<f32>, %s) -> @location(0) vec4<f32> {\n"
                    "  let p = a0 + prm;\n  let gi = u32(fc.x);\n  var acc = 1.0;\n%s\n  return p * acc + %s;\n}" % (ins, "\n".join(body), P.vexpr()))
     return stage, "\n\n".join(src) + "\n"
+
+
+# ------------------------------------------------------------------ stage interfaces (systematic)
+
+IFACE_TYPES = {"f": "f32", "2": "vec2<f32>", "3": "vec3<f32>", "4": "vec4<f32>"}
+IFACE_WIDTH = {"f": 1, "2": 2, "3": 3, "4": 4}
+
+
+def iface_sequences(maxlen=4):
+    """every sequence over {scalar, vec2, vec3, vec4} of length 1..maxlen, shortest first (340 for maxlen 4)"""
+    out = []
+    level = [""]
+    for _ in range(maxlen):
+        level = [s + c for s in level for c in "f234"]
+        out += level
+    return out
+
+
+def _widen(expr, frm, to):
+    """an expression of `to` components from one of `frm` components"""
+    if frm == to:
+        return expr
+    first = expr if frm == "f" else "%s.x" % expr
+    n = IFACE_WIDTH[to]
+    return first if n == 1 else "vec%d<f32>(%s)" % (n, first)
+
+
+def _scalar_of(expr, t):
+    return expr if t == "f" else "%s.x" % expr
+
+
+def iface_entry(k, stage, seq, builtins, style=0, clip=1):
+    """one entry point whose @location inputs AND outputs are the sequence `seq` (location i has type seq[i]);
+    builtins=True appends every builtin the stage allows after them (they sort behind the locations in the
+    DXIL signature).  style 0: IO structs; 1: bare arguments (outputs stay a struct).  Returns (name, text)."""
+    name = "e%d" % k
+    locs_in = ["@location(%d) a%d: %s" % (i, i, IFACE_TYPES[c]) for i, c in enumerate(seq)]
+    locs_out = ["@location(%d) o%d: %s" % (i, i, IFACE_TYPES[c]) for i, c in enumerate(seq)]
+    acc = " + ".join(_scalar_of(("a%d" if style else "in.a%d") % i, c) for i, c in enumerate(seq)) or "0.0"
+    copy = ["  o.o%d = %s;" % (i, ("a%d" if style else "in.a%d") % i) for i, c in enumerate(seq)]
+    if stage == "vertex":
+        bin_ = ["@builtin(vertex_index) vi: u32", "@builtin(instance_index) ii: u32"] if builtins else []
+        bout = ["@builtin(position) pos: vec4<f32>"] + (["@builtin(clip_distances) cd: array<f32, %d>" % clip] if builtins else [])
+        extra = (" + f32(%s + %s)" % (("vi", "ii") if style else ("in.vi", "in.ii"))) if builtins else ""
+        tail = ["  o.pos = vec4<f32>(%s%s, 0.0, 0.0, 1.0);" % (acc, extra)]
+        if builtins:
+            tail += ["  o.cd[%d] = %s;" % (i, acc) for i in range(clip)]
+    else:
+        bin_ = ["@builtin(position) fc: vec4<f32>", "@builtin(front_facing) ff: bool", "@builtin(sample_index) si: u32",
+                "@builtin(sample_mask) sm: u32"] if builtins else []
+        bout = ["@builtin(frag_depth) depth: f32", "@builtin(sample_mask) mask: u32"] if builtins else []
+        pre = "" if style else "in."
+        extra = (" + %sfc.x + f32(%ssi + %ssm) + select(0.0, 1.0, %sff)" % (pre, pre, pre, pre)) if builtins else ""
+        tail = ["  o.depth = %s%s;" % (acc, extra), "  o.mask = 1u;"] if builtins else []
+        if not builtins and not seq:
+            return None
+    members_in = locs_in + bin_
+    members_out = locs_out + bout
+    text = []
+    if style == 0 and members_in:
+        text.append("struct I%d {\n%s\n}" % (k, "\n".join("  %s," % m for m in members_in)))
+        params = "in: I%d" % k
+    else:
+        params = ", ".join(members_in)
+    if members_out:
+        text.append("struct O%d {\n%s\n}" % (k, "\n".join("  %s," % m for m in members_out)))
+        text.append("@%s\nfn %s(%s) -> O%d {\n  var o: O%d;\n%s\n  return o;\n}" % (stage, name, params, k, k, "\n".join(copy + tail)))
+    else:
+        text.append("@%s\nfn %s(%s) {\n}" % (stage, name, params))
+    return name, "\n".join(text)
+
+
+def iface_modules(per_module=10, maxlen=4):
+    """Systematic sweep: for every sequence (iface_sequences) x {vertex, fragment} x {no builtins after the
+    locations, all builtins after them} one entry point using the sequence for its inputs and its outputs.
+    Entry points are grouped into modules of `per_module`.  Returns [(module source, [(entry name, shape key)])]
+    with shape key 'iface:<stage>:<seq>:b<0|1>' (stable: it does not depend on the seed).  The clip distance array of the
+    vertex "all builtins" variant has one element; three extra entries use 2, 3 and 4 elements."""
+    entries = []
+    k = 0
+    for seq in iface_sequences(maxlen):
+        for stage in ("vertex", "fragment"):
+            for b in (False, True):
+                e = iface_entry(k, stage, seq, b)
+                if e:
+                    entries.append((e[0], e[1], "iface:%s:%s:b%d" % (stage, seq, int(b))))
+                    k += 1
+    for clip in (2, 3, 4):      # multi-element clip distance arrays (the sweep uses one element)
+        e = iface_entry(k, "vertex", "3f", True, clip=clip)
+        entries.append((e[0], e[1], "iface:vertex:3f:clip%d" % clip))
+        k += 1
+    mods = []
+    for i in range(0, len(entries), per_module):
+        chunk = entries[i:i + per_module]
+        mods.append(("enable clip_distances;\n" + "\n\n".join(t for _, t, _ in chunk) + "\n", [(n, key) for n, _, key in chunk]))
+    # builtins of the graphics stages that are not plain signature elements of every part
+    mods.append(("enable subgroups;\n"
+                 "@fragment\nfn x0(@builtin(barycentric) bary: vec3<f32>, @location(0) a: vec2<f32>) -> @location(0) vec4<f32> {\n  return vec4<f32>(bary, a.x);\n}\n"
+                 "@fragment\nfn x1(@location(0) a: vec3<f32>, @builtin(subgroup_size) ss: u32, @builtin(subgroup_invocation_id) si: u32) -> @location(0) vec4<f32> {\n"
+                 "  return vec4<f32>(a, f32(ss + si));\n}\n"
+                 "@vertex\nfn x2(@location(0) a: vec3<f32>, @builtin(subgroup_size) ss: u32) -> @builtin(position) vec4<f32> {\n  return vec4<f32>(a, f32(ss));\n}\n"
+                 "@fragment\nfn x3(@builtin(view_index) vi: u32, @location(0) a: f32, @builtin(primitive_index) pi: u32) -> @location(0) vec4<f32> {\n"
+                 "  return vec4<f32>(f32(vi + pi) + a);\n}\n"
+                 "@vertex\nfn x4(@builtin(view_index) vi: u32, @location(0) a: f32) -> @builtin(position) vec4<f32> {\n  return vec4<f32>(f32(vi) + a);\n}\n",
+                 [("x0", "iface:fragment:extra:barycentric"), ("x1", "iface:fragment:extra:subgroup"), ("x2", "iface:vertex:extra:subgroup"),
+                  ("x3", "iface:fragment:extra:view_primitive"), ("x4", "iface:vertex:extra:view")]))
+    return mods
+
+
+IFACE_SCALARS = [("f32", None), ("u32", "flat"), ("i32", "flat"), ("f32", "flat"), ("f32", "linear"), ("f32", "perspective, centroid"),
+                 ("f32", "linear, sample")]
+
+
+def iface_random_module(r, n_entries=6):
+    """sampled companion of the sweep: mixed scalar kinds and interpolation groups (each group packs into its own rows),
+    sparse / shuffled locations, members declared in any order (builtins first or between locations), bare arguments,
+    several structs per entry point, any subset of the builtins"""
+    text = ["enable clip_distances;"]
+    names = []
+    for k in range(n_entries):
+        stage = r.choice(["vertex", "fragment"])
+        n = r.below(6)
+        locs = r.shuffle(list(range(8)))[:n]
+        def member(i, loc, pfx, inputs):
+            sc, interp = r.choice(IFACE_SCALARS)
+            w = r.choice([1, 2, 3, 4])
+            ty = sc if w == 1 else "vec%d<%s>" % (w, sc)
+            needs = (stage == "fragment" and inputs) or (stage == "vertex" and not inputs)
+            if not needs:
+                interp = None if sc == "f32" else None
+            elif sc != "f32":
+                interp = "flat"
+            att = "@location(%d)%s" % (loc, " @interpolate(%s)" % interp if interp else "")
+            return "%s %s%d: %s" % (att, pfx, i, ty), ty, sc, w
+        ins = [member(i, loc, "a", True) for i, loc in enumerate(locs)]
+        if stage == "vertex":
+            bin_all = ["@builtin(vertex_index) vi: u32", "@builtin(instance_index) ii: u32"]
+            outs = [member(i, loc, "o", False) for i, loc in enumerate(r.shuffle(list(range(8)))[:r.below(6)])]
+            bout = ["@builtin(position) pos: vec4<f32>"] + (["@builtin(clip_distances) cd: array<f32, %d>" % r.range(1, 4)] if r.chance(1, 3) else [])
+        else:
+            bin_all = ["@builtin(position) fc: vec4<f32>", "@builtin(front_facing) ff: bool", "@builtin(sample_index) si: u32",
+                       "@builtin(sample_mask) sm: u32"]
+            outs = [member(i, loc, "o", False) for i, loc in enumerate(sorted(r.shuffle(list(range(8)))[:r.below(5)]))]
+            bout = [b for b in ["@builtin(frag_depth) depth: f32", "@builtin(sample_mask) mask: u32"] if r.chance(1, 3)]
+        bin_ = [b for b in bin_all if r.chance(1, 3)]
+        m_in = r.shuffle([m[0] for m in ins] + bin_)
+        m_out = r.shuffle([m[0] for m in outs] + bout)
+        if stage == "fragment" and not m_out and r.chance(1, 2):
+            m_out = ["@location(0) o0: vec4<f32>"]
+            outs = [(m_out[0], "vec4<f32>", "f32", 4)]
+        # inputs: split over up to two structs and bare arguments
+        style = r.below(3)
+        params = []
+        decl = []
+        if style == 0 or len(m_in) < 2:
+            params = list(m_in)
+        else:
+            cut = len(m_in) if style == 1 else r.range(1, len(m_in) - 1)
+            for si, part in enumerate([m_in[:cut], m_in[cut:]]):
+                if part:
+                    decl.append("struct I%d_%d {\n%s\n}" % (k, si, "\n".join("  %s," % m for m in part)))
+                    params.append("in%d: I%d_%d" % (si, k, si))
+        body = []
+        for m in outs:
+            nm = m[0].split(":")[0].split()[-1]
+            body.append("  o.%s = %s();" % (nm, m[1]))
+        if any("pos:" in b for b in m_out):
+            body.append("  o.pos = vec4<f32>(0.0, 0.0, 0.0, 1.0);")
+        if any("depth:" in b for b in m_out):
+            body.append("  o.depth = 0.5;")
+        if any("mask:" in b for b in m_out):
+            body.append("  o.mask = 1u;")
+        text += decl
+        if m_out:
+            text.append("struct O%d {\n%s\n}" % (k, "\n".join("  %s," % m for m in m_out)))
+            text.append("@%s\nfn r%d(%s) -> O%d {\n  var o: O%d;\n%s\n  return o;\n}" % (stage, k, ", ".join(params), k, k, "\n".join(body)))
+        else:
+            text.append("@%s\nfn r%d(%s) {\n}" % (stage, k, ", ".join(params)))
+        names.append("r%d" % k)
+    return "\n\n".join(text) + "\n", names
+
+
+# ------------------------------------------------------------------ nested control flow with promotable locals (systematic)
+
+NEST_LOCALS = {
+    "u32": lambda t, i, o: ["var %s: u32 = %s * 3u;" % (t, i), "%s = %s + 1u;" % (t, t), "%s = %s;" % (o, t)],
+    "i32": lambda t, i, o: ["var %s: i32 = i32(%s) - 2;" % (t, i), "%s = %s * 3;" % (t, t), "%s = u32(%s);" % (o, t)],
+    "f32": lambda t, i, o: ["var %s: f32 = f32(%s) * 0.5;" % (t, i), "%s = %s + 1.25;" % (t, t), "%s = u32(%s);" % (o, t)],
+    "bool": lambda t, i, o: ["var %s: bool = %s > 1u;" % (t, i), "%s = !%s;" % (t, t), "%s = select(1u, 2u, %s);" % (o, t)],
+    "vec": lambda t, i, o: ["var %s: vec2<u32> = vec2<u32>(%s, 1u);" % (t, i), "%s.x = %s.x + 1u;" % (t, t), "%s = %s.x + %s.y;" % (o, t, t)],
+    "struct": lambda t, i, o: ["var %s: S;" % t, "%s.a = %s;" % (t, i), "%s.b = %s.a + 1u;" % (t, t), "%s = %s.b;" % (o, t)],
+}
+
+
+def _ind(lines, n=1):
+    return ["  " * n + l for l in lines]
+
+
+def _nest_nested(kind, local, idx):
+    """lines of one compound statement whose body holds the promotable local (two bodies for if-else / switch)"""
+    b = lambda t, i: NEST_LOCALS[local](t, i, "out[%s %% 4u]" % i)
+    if kind == "for":
+        return ["for (var i = 0u; i < 4u; i = i + 1u) {"] + _ind(b("t", "i")) + ["}"]
+    if kind == "while":
+        return ["var w = 0u;", "while (w < 3u) {"] + _ind(b("t", "w") + ["w = w + 1u;"]) + ["}"]
+    if kind == "loop":
+        return ["var l = 0u;", "loop {"] + _ind(b("t", "l") + ["continuing {", "  l = l + 1u;", "  break if l >= 3u;", "}"]) + ["}"]
+    if kind == "if":
+        return ["if (%s > 1u) {" % idx] + _ind(b("t", idx)) + ["}"]
+    if kind == "ifelse":
+        return ["if (%s > 1u) {" % idx] + _ind(b("t", idx)) + ["} else {"] + _ind(b("t2", idx)) + ["}"]
+    if kind == "switch":
+        return ["switch (%s) {" % idx, "  case 1u: {"] + _ind(b("t", idx), 2) + ["  }", "  default: {"] + _ind(b("t2", idx), 2) + ["  }", "}"]
+    if kind == "block":
+        return ["{"] + _ind(b("t", idx)) + ["}"]
+    return b("t", idx)       # "none": the local sits directly in the container
+
+
+def _nest_container(kind, x):
+    other = ["out[0] = 1u;"]
+    if kind == "else":
+        return ["if (g == 0u) {"] + _ind(other) + ["} else {"] + _ind(x) + ["}"]
+    if kind == "then":
+        return ["if (g == 0u) {"] + _ind(x) + ["} else {"] + _ind(other) + ["}"]
+    if kind == "elseif":
+        return ["if (g == 0u) {"] + _ind(other) + ["} else if (g == 1u) {"] + _ind(["out[1] = 2u;"]) + ["} else {"] + _ind(x) + ["}"]
+    if kind == "default":
+        return ["switch (g) {", "  case 0u: {"] + _ind(other, 2) + ["  }", "  default: {"] + _ind(x, 2) + ["  }", "}"]
+    if kind == "case":
+        return ["switch (g) {", "  case 0u, 1u: {"] + _ind(x, 2) + ["  }", "  default: {"] + _ind(other, 2) + ["  }", "}"]
+    if kind == "loop_in_else":
+        return ["if (g == 0u) {"] + _ind(other) + ["} else {", "  for (var c = 0u; c < 2u; c = c + 1u) {"] + _ind(x, 2) + ["  }", "}"]
+    if kind == "else_in_loop":
+        return ["for (var c = 0u; c < 2u; c = c + 1u) {", "  if (c == g) {"] + _ind(other, 2) + ["  } else {"] + _ind(x, 2) + ["  }", "}"]
+    if kind == "else_in_default":
+        return ["switch (g) {", "  case 0u: {"] + _ind(other, 2) + ["  }", "  default: {", "    if (g == 2u) {"] + _ind(other, 3) + ["    } else {"] + _ind(x, 3) + ["    }", "  }", "}"]
+    if kind == "continuing":
+        return ["var c = 0u;", "loop {", "  if (c >= 2u) {", "    break;", "  }", "  continuing {"] + _ind(x, 2) + ["    c = c + 1u;", "  }", "}"]
+    return x                 # "top"
+
+
+NEST_CONTAINERS = ["else", "then", "elseif", "default", "case", "loop_in_else", "else_in_loop", "else_in_default", "continuing", "top"]
+NEST_NESTED = ["for", "while", "loop", "if", "ifelse", "switch", "block", "none"]
+
+
+def nest_programs():
+    """Systematic family for the recompile / fresh-module monitors: container (else branch, else-if chain, switch default arm, switch
+    case arm, loop inside else, else inside loop, else inside default, continuing block, then branch and function top level as
+    baselines) x nested compound statement (for, while, loop+continuing, if, if-else, switch, block, none) x promotable local
+    (u32, i32, f32, bool, vec2 with component store, two-member struct), in the entry point; and once more with the u32 local
+    inside a helper function (not inlined: it has control flow).  Returns [(key, stage, source)]; keys do not depend on a seed."""
+    out = []
+    head = "struct S {\n  a: u32,\n  b: u32,\n}\n@group(0) @binding(0) var<storage, read_write> out: array<u32>;\n\n"
+    for c in NEST_CONTAINERS:
+        for n in NEST_NESTED:
+            for loc in NEST_LOCALS:
+                body = _nest_container(c, _nest_nested(n, loc, "g"))
+                src = head + "@compute @workgroup_size(1)\nfn main(@builtin(global_invocation_id) gid: vec3<u32>) {\n  let g = gid.x;\n%s\n}\n" % "\n".join(_ind(body))
+                out.append(("nest:%s:%s:%s:entry" % (c, n, loc), "compute", src))
+            body = _nest_container(c, _nest_nested(n, "u32", "g"))
+            src = head + "fn helper(g: u32) {\n%s\n}\n\n@compute @workgroup_size(1)\nfn main(@builtin(global_invocation_id) gid: vec3<u32>) {\n  helper(gid.x);\n  helper(gid.y);\n}\n" % "\n".join(_ind(body))
+            out.append(("nest:%s:%s:u32:helper" % (c, n), "compute", src))
+    # the same shapes reached from the graphics stages (interface lowering runs before the passes)
+    for c in ("else", "default", "loop_in_else"):
+        for n in ("for", "switch", "ifelse"):
+            body = _nest_container(c, [l.replace("out[", "acc[") for l in _nest_nested(n, "u32", "g")])
+            body = [l.replace("out[", "acc[") for l in body]
+            src = ("@fragment\nfn main(@builtin(position) fc: vec4<f32>, @location(0) @interpolate(flat) g: u32) -> @location(0) vec4<f32> {\n"
+                   "  var acc: array<u32, 4>;\n%s\n  return vec4<f32>(f32(acc[0]), f32(acc[1]), f32(acc[2]), f32(acc[3])) + fc;\n}\n" % "\n".join(_ind(body)))
+            out.append(("nest:%s:%s:u32:fragment" % (c, n), "fragment", src))
+            src = ("@vertex\nfn main(@builtin(vertex_index) g: u32) -> @builtin(position) vec4<f32> {\n"
+                   "  var acc: array<u32, 4>;\n%s\n  return vec4<f32>(f32(acc[0]), f32(acc[1]), f32(acc[2]), f32(acc[3]));\n}\n" % "\n".join(_ind(body)))
+            out.append(("nest:%s:%s:u32:vertex" % (c, n), "vertex", src))
+    return out
